@@ -12,6 +12,7 @@ from spverif.ref import ccsds as H
 from . import _cfdp as C
 from . import c02, c03
 
+SCRIBBLE = True
 ID = "C11"
 LEVEL = "exploration"
 SHARDS = {"quick": 1, "thorough": 16}
@@ -408,6 +409,8 @@ KINDS = {"pdu_history": k_pdu_history, "pus_history": k_pus_history, "uslp_histo
 
 
 def run(ctx):
+    from spverif.san import scribble
+    scribble.install()
     r = ctx.rng
     i = 0
     # exhaustive small alphabets to depth 4
@@ -456,6 +459,7 @@ def run(ctx):
 
 
 def conclude(ctx):
+    ctx.require(ctx.extra.get("hostile_caller_scribbled_pack_results", 0) > 0, "hostile-caller sanitizer scribbled no pack() result")
     cells = ctx.tables.get("setter_cells", {})
     for kind, ss in SETTERS.items():
         for s in ss:
